@@ -13,6 +13,8 @@ engines = {}
 checks = []
 for pid in sorted(PROPS):
     c = PROPS[pid]
+    if not c.get('ready'):
+        continue
     checks.append({
         "property_id": pid,
         "quick_cmd": "./vcheck %s quick" % pid,
@@ -37,7 +39,7 @@ m = {
     },
     "engines": [{"name": k, "path": "harness/cmd/" + k, "serves_properties": v, "kind_free_text": "Go worker (child process per batch) driven by ./vcheck"} for k, v in sorted(engines.items())],
     "checks": checks,
-    "not_applicable": [{"property_id": p, "reason": na.get(p, "check not built yet in this session (runtime monitoring applies; see DESIGN.md section 4)")} for p in allids if p not in PROPS],
+    "not_applicable": [{"property_id": p, "reason": na.get(p, "check not built yet in this session (runtime monitoring applies; see DESIGN.md section 4)")} for p in allids if not PROPS.get(p, {}).get('ready')],
     "notes": "Runtime monitoring: every check runs the real code in child processes under monitors (see DESIGN.md). known_findings.json lists genuine defects recorded rather than repaired; 'fix:' commits in /repo are listed there as fixed.",
 }
 json.dump(m, open(os.path.join(ROOT, "MANIFEST.json"), "w"), indent=1)
